@@ -9,7 +9,7 @@ from vlib import Result, enc_list, f2b, Toks, close, enc_bool
 PROP = 'C01'
 META = {
     'level_text': 'Lean 4 theorems (for every distribution, interfacial-composition table, number of phases/elements, site volume factor, both precipitate-diffusion modes, every sequence of steps by induction) that each slice produced by the mass balance satisfies x0 = x_matrix(1 - sum fv) + sum fconc up to the documented clamp, that fconc is the PSD sum of particle volume x interfacial composition and fv the same sum with composition 1; the model of _calcMassBalance is tied to KWNEuler.py by replaying every logged call of synthetic configurations and of real Al-Zr / Ni-Cr-Al runs (both iterators, split solve calls) through the compiled model, and the predicate is evaluated directly on the recorded histories. In addition the WHOLE accepted step of the KWN model (both iterators) is composed in Lean (KawinV.KWNFull: getdXdt, getDt, clamp, correctdXdt, update, mass balance, nucleation with the regenerated formulas, growth/lookup, append, size-distribution update) and every accepted step of real runs is replayed through it with the captured backend answers; theorem eulerStep_conserves states the balance for the row recorded by the composed step, for every backend.',
-    'level_note': 'Trusted: Lean kernel + Mathlib (standard axioms only); the hand model equals _calcMassBalance only as far as compared on this run; the order of calls inside a KWN step (which table and state the mass balance sees) is observed by run-time wrappers, not proved; exact-field arithmetic vs IEEE doubles (rtol 1e-9); pycalphad results are universally quantified inputs. No-diffusion mode: only the balance theorem is claimed (fconc is an integral of increments there).',
+    'level_note': 'Trusted: Lean kernel + Mathlib (standard axioms only); the hand model equals _calcMassBalance only as far as compared on this run; the order of calls inside a KWN step (which table and state the mass balance sees) is part of the composed Lean step KawinV.KWNFull and is tied to the code by step-by-step refinement of real runs (entry state + captured backend answers -> exit state), not by proof about the Python source; exact-field arithmetic vs IEEE doubles (rtol 1e-9); pycalphad results are universally quantified inputs. No-diffusion mode: only the balance theorem is claimed (fconc is an integral of increments there).',
     'technique': 'Lean 4 proof (algebraic law + induction over the run) + trace refinement of real runs against the model',
     'design_ref': 'DESIGN.md section 6, C01',
 }
